@@ -4,15 +4,21 @@ R16.1 payload identity (file bytes -> hex, unmodified, unmemoised) and hex line 
 R16.2 format tables agree; R16.3 PNG/JPEG dimension offsets; R16.4 goal size through the shared
 inch->twip conversion (who-may-convert rule, shared with C06); R16.5 per-figure loop shape and the
 dimension reuse rule; R16.6 placement predicates of the figure path (shared with C06).
+
+The figure functions are small and pure, so they are decided by *evaluating* their syntax trees (FlowDT of c06, the
+repository code is never imported) on concrete models: synthetic PNG/JPEG headers, hex strings of several lengths,
+size lists of several lengths, lists of 1-3 figures.  A function that leaves the interpretable subset is an analysis gap.
 """
 from __future__ import annotations
 
 import ast
+import re
+import struct
 
-from ..absint import NOC
 from ..consteval import const_expr
+from ..dtab import NeedAtom, Sym, Unsupported
 from ..linform import linform
-from ..pm import AnalysisError, dotted, unparse, walk_no_nested
+from ..pm import dotted, unparse, walk_no_nested
 from ..report import Ctx
 
 
@@ -40,8 +46,9 @@ def units_rule(ctx: Ctx, rule: str) -> None:
     rets = [r for r in walk_no_nested(f.node) if isinstance(r, ast.Return)]
     p0 = f.node.args.args[0].arg
     ref = linform(ast.parse(f"{p0} * RTFConstants.TWIPS_PER_INCH", mode="eval").body)
-    ok = len(rets) == 1 and isinstance(rets[0].value, ast.Call) and dotted(rets[0].value.func) == "round" and len(rets[0].value.args) == 1 \
-        and linform(rets[0].value.args[0]) == ref
+    from ..astmatch import resolve
+    val0 = resolve(rets[0].value, f.node) if len(rets) == 1 and rets[0].value is not None else None
+    ok = val0 is not None and isinstance(val0, ast.Call) and dotted(val0.func) == "round" and len(val0.args) == 1 and linform(val0.args[0]) == ref
     val = const_expr(pm, f.module, ast.parse("RTFConstants.TWIPS_PER_INCH", mode="eval").body)
     ctx.instance(rule, f.where(), f"inch_to_twip returns `{unparse(rets[0].value) if rets else '?'}`; TWIPS_PER_INCH = {val}")
     if not ok or val != 1440:
@@ -50,207 +57,463 @@ def units_rule(ctx: Ctx, rule: str) -> None:
     ctx.floor(rule, 2)
 
 
+# ---------------------------------------------------------------------------------------------------- helpers
+
+def _flow(pm, **kw):
+    from .c06 import FlowDT
+    return FlowDT(pm, **kw)
+
+
+def _table(ctx: Ctx, rule: str, dt, fi, args, what: str, limit: int = 4000):
+    try:
+        return dt.table(fi, args, limit=limit)
+    except (Unsupported, NeedAtom) as e:
+        ctx.gap(rule, f"{what} is outside the interpretable subset ({str(e)[:120]})")
+        return None
+
+
+def _params(fi) -> list[str]:
+    return [a.arg for a in fi.node.args.args if a.arg not in ("self", "cls")]
+
+
+# ---------------------------------------------------------------------------------------------------- R16.1
+
+def _hex_model(n_bytes: int) -> str:
+    return bytes((37 * k + 11) % 256 for k in range(n_bytes)).hex()
+
+
 def r16_1(ctx: Ctx) -> None:
     pm = ctx.pm
     rd = pm.func("_read_image_data")
     for d in rd.decorators:
         ctx.violation("R16.1", rd.short, "decorator " + d, rd.where(), f"_read_image_data is wrapped by {d}: the embedded bytes may not be the file's current bytes")
-    opens = [c for c in walk_no_nested(rd.node) if isinstance(c, ast.Call) and dotted(c.func) == "open"]
-    ok_mode = opens and all(len(c.args) > 1 and isinstance(c.args[1], ast.Constant) and c.args[1].value == "rb" for c in opens)
-    rets = [r for r in walk_no_nested(rd.node) if isinstance(r, ast.Return)]
-    ok_ret = len(rets) == 1 and isinstance(rets[0].value, ast.Call) and isinstance(rets[0].value.func, ast.Attribute) \
-        and rets[0].value.func.attr == "read" and not rets[0].value.args
-    ctx.instance("R16.1", rd.where(), f"_read_image_data: open(..., 'rb') {bool(ok_mode)}, returns `{unparse(rets[0].value) if rets else '?'}`")
-    if not (ok_mode and ok_ret):
+    opens = [c for c in walk_no_nested(rd.node) if isinstance(c, ast.Call) and dotted(c.func).split(".")[-1] == "open"]
+    rets = [r for r in walk_no_nested(rd.node) if isinstance(r, ast.Return) and r.value is not None]
+    from ..astmatch import resolve
+    desc = []
+    verdict = "ok"
+    for c in opens:
+        mode = c.args[1] if len(c.args) > 1 else next((k.value for k in c.keywords if k.arg == "mode"), None)
+        if dotted(c.func) != "open" and isinstance(c.func, ast.Attribute):     # path.open(mode)
+            mode = c.args[0] if c.args else next((k.value for k in c.keywords if k.arg == "mode"), None)
+        m = mode.value if isinstance(mode, ast.Constant) else None
+        desc.append(f"open(..., {m!r})")
+        if m is None and mode is not None:
+            verdict = "gap"
+        elif m is None or "b" not in str(m) or any(ch in str(m) for ch in "wax+"):
+            verdict = "bad"
+    if len(rets) != 1:
+        verdict = "gap" if verdict == "ok" else verdict
+    else:
+        v = resolve(rets[0].value, rd.node)
+        desc.append(f"returns `{unparse(v)}`")
+        if isinstance(v, ast.Call) and isinstance(v.func, ast.Attribute) and v.func.attr == "read" and opens:
+            if v.args or v.keywords:
+                verdict = "bad"          # partial read
+        elif isinstance(v, ast.Call) and isinstance(v.func, ast.Attribute) and v.func.attr == "read_bytes" and not v.args:
+            pass
+        elif isinstance(v, ast.Call) and isinstance(v.func, ast.Attribute) and v.func.attr == "read_text":
+            verdict = "bad"
+        elif verdict == "ok":
+            verdict = "gap"
+    ctx.instance("R16.1", rd.where(), f"_read_image_data: {'; '.join(desc)}: whole binary content: {verdict}")
+    if verdict == "bad":
         ctx.violation("R16.1", rd.short, "read " + (unparse(rets[0].value) if rets else "?"), rd.where(), "image bytes are not the complete binary content of the file")
-    # rtf_read_figure appends the data unchanged, in input order
+    elif verdict == "gap":
+        ctx.gap("R16.1", "how _read_image_data obtains the file content could not be re-identified (expected open(path, 'rb').read() or Path.read_bytes())")
+    # rtf_read_figure on concrete lists of paths: data/format k come from file k, unchanged, in the given order
     rf = pm.func("rtf_read_figure")
-    data_assign = [a for a in walk_no_nested(rf.node) if isinstance(a, ast.Assign) and isinstance(a.value, ast.Call) and dotted(a.value.func) == "_read_image_data"]
-    apps = [c for c in walk_no_nested(rf.node) if isinstance(c, ast.Call) and isinstance(c.func, ast.Attribute) and c.func.attr == "append" and unparse(c.func.value) == "figure_data"]
-    ok = len(data_assign) == 1 and len(apps) == 1 and unparse(apps[0].args[0]) == unparse(data_assign[0].targets[0])
-    loop = [n for n in walk_no_nested(rf.node) if isinstance(n, ast.For)]
-    order_ok = bool(loop) and unparse(loop[0].iter) == "file_paths"
-    ctx.instance("R16.1", rf.where(), f"rtf_read_figure: data appended unchanged {ok}; iterates file_paths in order {order_ok}")
-    if not ok or not order_ok:
-        ctx.violation("R16.1", rf.short, "figure data flow", rf.where(), "rtf_read_figure no longer returns each file's bytes unchanged and in the given order")
     for d in rf.decorators:
         ctx.violation("R16.1", rf.short, "decorator " + d, rf.where(), f"rtf_read_figure is wrapped by {d}")
-    # _encode_single_figure passes its data parameter to _binary_to_hex unmodified, once, inside {\pict ...}
-    es = pm.func("RTFFigureService._encode_single_figure")
-    hx = [c for c in walk_no_nested(es.node) if isinstance(c, ast.Call) and dotted(c.func).endswith("_binary_to_hex")]
-    p0 = es.node.args.args[0].arg
-    reassigned = any(isinstance(a, (ast.Assign, ast.AugAssign)) and any(isinstance(t, ast.Name) and t.id == p0 for t in (a.targets if isinstance(a, ast.Assign) else [a.target])) for a in walk_no_nested(es.node))
-    ok = len(hx) == 1 and len(hx[0].args) == 1 and unparse(hx[0].args[0]) == p0 and not reassigned
-    ctx.instance("R16.1", es.where(), f"_encode_single_figure: _binary_to_hex({unparse(hx[0].args[0]) if hx else '?'}) with `{p0}` never reassigned: {ok}")
-    if not ok:
-        ctx.violation("R16.1", es.short, "payload argument", es.where(), "the hex payload is not computed from the figure's bytes exactly as received")
-    # _binary_to_hex: whole-object hex(), partition by a cursor with stride = chunk length, whitespace separator
+    ps = _params(rf)
+    if len(ps) != 1:
+        ctx.gap("R16.1", "rtf_read_figure no longer takes one argument")
+    else:
+        bad = None
+        n_ok = 0
+        for n in (1, 3):
+            paths = [Sym(f"p{k}") for k in range(n)]
+            dt = _flow(pm, opaque={"_determine_image_format", "_read_image_data"}, max_atoms=12)
+            rows = _table(ctx, "R16.1", dt, rf, {ps[0]: list(paths)}, "rtf_read_figure")
+            if rows is None:
+                break
+            full = [(v, r) for v, r in rows if r.raised is None]
+            if not full:
+                ctx.gap("R16.1", "rtf_read_figure returns on no evaluated path")
+                break
+            for v, r in full:
+                ret = r.ret
+                if not (isinstance(ret, (tuple, list)) and len(ret) == 2 and all(isinstance(x, list) for x in ret)):
+                    ctx.gap("R16.1", f"rtf_read_figure does not return a pair of lists on the model ({str(ret)[:60]})")
+                    bad = bad or ""
+                    continue
+                datas = [str(x.path if isinstance(x, Sym) else x) for x in ret[0]]
+                fmts = [str(x.path if isinstance(x, Sym) else x) for x in ret[1]]
+                ok_d = len(datas) == n and all(re.fullmatch(r"_read_image_data\((Path\()?p%d\)?\)" % k, d) for k, d in enumerate(datas))
+                ok_f = len(fmts) == n and all(re.fullmatch(r"_determine_image_format\((Path\()?p%d\)?\)" % k, d) for k, d in enumerate(fmts))
+                if ok_d and ok_f:
+                    n_ok += 1
+                elif bad is None:
+                    bad = f"data {datas} formats {fmts}"
+        ctx.instance("R16.1", rf.where(), f"rtf_read_figure on 1 and 3 paths: data[k] = _read_image_data(path k), format[k] = _determine_image_format(path k), in order: {n_ok} path(s) ok"
+                     + (f", disagreement {bad}" if bad else ""))
+        if bad:
+            ctx.violation("R16.1", rf.short, "figure data flow", rf.where(), f"rtf_read_figure no longer returns each file's bytes unchanged and in the given order: {bad[:160]}")
+    # _binary_to_hex on concrete hex strings: the lines partition the string exactly, no byte is split, whitespace separators
     bh = pm.func("RTFFigureService._binary_to_hex")
-    p = bh.node.args.args[0].arg
-    hexcalls = [c for c in walk_no_nested(bh.node) if isinstance(c, ast.Call) and isinstance(c.func, ast.Attribute) and c.func.attr == "hex"]
-    ok_hex = len(hexcalls) == 1 and unparse(hexcalls[0].func.value) == p and not hexcalls[0].args
-    from ..linform import single_assign_env
-    env = single_assign_env(bh.node)
-    loops = [n for n in walk_no_nested(bh.node) if isinstance(n, (ast.For, ast.comprehension)) and isinstance(n.iter, ast.Call) and dotted(n.iter.func) == "range"]
-    ok_part = False
-    desc = "no range loop"
-    if loops:
-        lp = loops[0]
-        ra = lp.iter.args
-        iv = lp.target.id if isinstance(lp.target, ast.Name) else "?"
-        slices = [s for s in ast.walk(bh.node) if isinstance(s, ast.Subscript) and isinstance(s.slice, ast.Slice)]
-        if len(ra) == 3 and slices:
-            sl = slices[0].slice
-            stride = linform(ra[2], env)
-            lo = linform(sl.lower, env) if sl.lower is not None else None
-            up = linform(sl.upper, env) if sl.upper is not None else None
-            start0 = linform(ra[0], env) == {}
-            stop_len = unparse(ra[1]) == f"len({unparse(slices[0].value)})"
-            width = None
-            if lo is not None and up is not None:
-                width = {k: up.get(k, 0) - lo.get(k, 0) for k in set(up) | set(lo) if up.get(k, 0) - lo.get(k, 0) != 0}
-            ok_part = start0 and stop_len and lo == {iv: 1} and width == stride and stride.get("", 0) > 0 and (stride.get("", 0) % 2 == 0)
-            desc = f"range(0, len, {stride}) slices [{lo}:{up}]"
-    joins = [c for c in walk_no_nested(bh.node) if isinstance(c, ast.Call) and isinstance(c.func, ast.Attribute) and c.func.attr == "join"]
-    sep = const_expr(pm, bh.module, joins[0].func.value) if joins else NOC
-    ok_sep = isinstance(sep, str) and sep.strip() == ""
-    ctx.instance("R16.1", bh.where(), f"_binary_to_hex: {p}.hex() {ok_hex}; partition {desc} exact: {ok_part}; separator {sep!r}")
-    if not ok_hex:
-        ctx.violation("R16.1", bh.short, "hex()", bh.where(), "the payload is not bytes.hex() of the whole object")
-    if not ok_part:
-        ctx.violation("R16.1", bh.short, "partition " + desc, bh.where(), f"hex lines do not partition the string exactly ({desc}): characters are lost, duplicated, or a byte is split across lines")
-    if not ok_sep:
-        ctx.violation("R16.1", bh.short, f"separator {sep!r}", bh.where(), "hex lines are joined by something other than whitespace")
+    ps = _params(bh)
+    if len(ps) != 1:
+        ctx.gap("R16.1", "_binary_to_hex no longer takes one argument")
+        return
+    bad = {}
+    n_ok = 0
+    for n_bytes in (0, 1, 39, 40, 41, 80, 81, 100, 159, 400):
+        hx = _hex_model(n_bytes)
+        dt = _flow(pm, call_model={"hex": lambda a, k, hx=hx: hx if not a and not k else (_ for _ in ()).throw(ValueError("hex with separator"))}, max_atoms=8)
+        rows = _table(ctx, "R16.1", dt, bh, {ps[0]: Sym(ps[0])}, "_binary_to_hex")
+        if rows is None:
+            return
+        for v, r in rows:
+            out = r.ret
+            if r.raised is not None or not isinstance(out, str) or "‹" in out:
+                ctx.gap("R16.1", f"_binary_to_hex does not evaluate to a string on the model of {n_bytes} bytes ({r.raised or str(out)[:60]})")
+                return
+            lines = out.split("\n") if out else []
+            if "".join(out.split()) != hx:
+                bad.setdefault("partition", f"{n_bytes} bytes: the joined lines differ from bytes.hex() (characters lost or duplicated)")
+            elif any(len(ln.strip()) % 2 for ln in re.split(r"\s+", out) if ln):
+                bad.setdefault("partition odd line length", f"{n_bytes} bytes: a line of {max(len(x) for x in lines)} hex digits splits a byte across lines")
+            elif re.sub(r"[0-9a-f\s]", "", out):
+                bad.setdefault("separator", f"{n_bytes} bytes: hex lines are joined by something other than whitespace")
+            else:
+                n_ok += 1
+    ctx.instance("R16.1", bh.where(), f"_binary_to_hex evaluated on hex strings of 10 lengths: lines concatenate to bytes.hex(), even line lengths, whitespace separators: {n_ok} ok, {len(bad)} kind(s) of disagreement")
+    for k, msg in sorted(bad.items()):
+        ctx.violation("R16.1", bh.short, k, bh.where(), f"_binary_to_hex: {msg}")
+
+
+# ---------------------------------------------------------------------------------------------------- R16.2 / R16.3 / R16.4
+
+WANT_SUFFIX = {".png": "png", ".jpg": "jpeg", ".jpeg": "jpeg", ".emf": "emf"}
+WANT_MIME = {"image/png": "png", "image/jpeg": "jpeg", "image/jpg": "jpeg"}
+WANT_BLIP = {"png": "\\pngblip", "jpeg": "\\jpegblip", "emf": "\\emfblip"}
+
+
+def _png(width: int, height: int) -> bytes:
+    ihdr = struct.pack(">II", width, height) + bytes([8, 6, 0, 0, 0])
+    return b"\x89PNG\r\n\x1a\n" + struct.pack(">I", len(ihdr)) + b"IHDR" + ihdr + b"\x12\x34\x56\x78" + b"\x00\x00\x00\x00IEND\xaeB`\x82"
+
+
+def _jpeg_segment(marker: int, payload: bytes) -> bytes:
+    return bytes([0xFF, marker]) + struct.pack(">H", len(payload) + 2) + payload
+
+
+def _jpeg(sof: int, width: int, height: int, before: tuple = ()) -> bytes:
+    body = b"\xff\xd8" + _jpeg_segment(0xE0, b"JFIF\x00\x01\x01\x00\x00\x01\x00\x01\x00\x00")
+    for m in before:
+        # a non-frame segment whose payload, if misread as a frame header, would give 0x0111 x 0x0222
+        body += _jpeg_segment(m, b"\x08" + struct.pack(">HH", 0x0111, 0x0222) + b"\x03\x01\x22\x00\x02\x11\x01\x03\x11\x01")
+    body += _jpeg_segment(sof, b"\x08" + struct.pack(">HH", height, width) + b"\x03\x01\x22\x00\x02\x11\x01\x03\x11\x01")
+    return body + _jpeg_segment(0xDA, b"\x00" * 10) + b"\x00" * 16 + b"\xff\xd9"
+
+
+_STRUCT = {"unpack": lambda a, k: struct.unpack(*a), "unpack_from": lambda a, k: struct.unpack_from(*a, **k),
+           "calcsize": lambda a, k: struct.calcsize(*a), "from_bytes": lambda a, k: int.from_bytes(*a, **k)}
 
 
 def r16_2_3(ctx: Ctx) -> None:
     pm = ctx.pm
+    # ---- suffix / MIME -> format: decision table of _determine_image_format
     df = pm.func("_determine_image_format")
+    ps = _params(df)
+    if len(ps) != 1:
+        ctx.gap("R16.2", "_determine_image_format no longer takes one argument")
+    else:
+        def dom(path: str):
+            if re.search(r"\.suffix(es\[-1\])?(\.lower\(\)|\.casefold\(\))$", path):
+                return list(WANT_SUFFIX) + [".gif"]
+            if re.search(r"\.suffix(es\[-1\])?$", path):
+                return list(WANT_SUFFIX) + [".PNG", ".gif"]       # compared without case folding
+            if "guess_type" in path and path.endswith("[0]"):
+                return list(WANT_MIME) + ["image/gif", None]
+            return None
+        dt = _flow(pm, sym_domain=dom, max_atoms=12)
+        rows = _table(ctx, "R16.2", dt, df, {ps[0]: Sym(ps[0])}, "_determine_image_format")
+        if rows is not None:
+            bad = {}
+            n = 0
+            for v, r in rows:
+                sfx = next((x for k, x in v.items() if ".suffix" in k and isinstance(x, str)), None)
+                mime = next((x for k, x in v.items() if "guess_type" in k), "<unconsulted>")
+                others = [k for k in v if ".suffix" not in k and "guess_type" not in k]
+                if sfx is None or others:
+                    ctx.gap("R16.2", f"_determine_image_format decides by {sorted(v)[:3]}, not by the path's suffix / guessed MIME type")
+                    break
+                n += 1
+                got = r.ret if r.raised is None else "<raises>"
+                want = WANT_SUFFIX.get(sfx.lower())
+                if want is None:
+                    want = WANT_MIME.get(mime, "<raises>") if mime != "<unconsulted>" else None
+                if want is None or (isinstance(got, Sym)):
+                    ctx.gap("R16.2", f"_determine_image_format: result `{got}` for suffix {sfx!r} is not decided by the model")
+                    break
+                if got != want:
+                    bad.setdefault(f"suffix table {sfx} -> {got}" if sfx.lower() in WANT_SUFFIX else f"mime table {mime} -> {got}",
+                                   f"_determine_image_format gives {got!r} for suffix {sfx!r}" + (f", MIME {mime!r}" if mime != "<unconsulted>" else "") + f"; documented {want!r}"
+                                   + (" (suffix comparison must be case-insensitive)" if sfx != sfx.lower() else ""))
+            ctx.instance("R16.2", df.where(), f"_determine_image_format: decision table over suffix x guessed MIME type, {n} rows, equals {WANT_SUFFIX} / {WANT_MIME}; {len(bad)} disagreement(s)")
+            for k, msg in sorted(bad.items()):
+                ctx.violation("R16.2", df.short, k, df.where(), msg)
+    # ---- the picture group: blip per format, \picw/\pich from the reader (or the 96 dpi fallback), goal sizes through the shared conversion, payload
     es = pm.func("RTFFigureService._encode_single_figure")
-    fmaps = {unparse(a.targets[0]): const_expr(pm, df.module, a.value) for a in walk_no_nested(df.node) if isinstance(a, ast.Assign) and isinstance(a.value, ast.Dict)}
-    emaps = {unparse(a.targets[0]): const_expr(pm, es.module, a.value) for a in walk_no_nested(es.node) if isinstance(a, ast.Assign) and isinstance(a.value, ast.Dict)}
-    suffix = fmaps.get("format_map", {})
-    mime = fmaps.get("mime_to_format", {})
-    blip = emaps.get("format_map", {})
-    ctx.instance("R16.2", df.where(), f"suffix table {suffix}; mime table {mime}")
-    ctx.instance("R16.2", es.where(), f"blip table {blip}")
-    want_suffix = {".png": "png", ".jpg": "jpeg", ".jpeg": "jpeg", ".emf": "emf"}
-    want_blip = {"png": "\\pngblip", "jpeg": "\\jpegblip", "emf": "\\emfblip"}
-    if suffix != want_suffix:
-        ctx.violation("R16.2", df.short, f"suffix table {suffix}", df.where(), f"suffix->format table is {suffix}, documented {want_suffix}")
-    produced = set(suffix.values()) | set(mime.values()) if isinstance(mime, dict) else set(suffix.values())
-    for f in sorted(produced):
-        if blip.get(f) != want_blip.get(f):
-            ctx.violation("R16.2", es.short, f"blip for {f}: {blip.get(f)}", es.where(), f"format {f!r} is tagged {blip.get(f)!r}, expected {want_blip.get(f)!r}")
-    if "lower" not in unparse(df.node):
-        ctx.violation("R16.2", df.short, "suffix case", df.where(), "suffix comparison is no longer case-insensitive")
-    # dispatch of dimension readers
+    ps = _params(es)
+    if len(ps) != 5:
+        ctx.gap("R16.3", "_encode_single_figure no longer takes (data, format, width, height, alignment)")
+    else:
+        from .c06 import _tokens, _conv_of, shared_conversions
+        conv = shared_conversions(pm)
+        data, fmt, w, h, al = ps
+        dt = _flow(pm, atoms={fmt: ["png", "jpeg", "emf"]}, opaque={"_get_image_dimensions", "_binary_to_hex"}, max_atoms=16, root_cls="RTFFigureService")
+        rows = _table(ctx, "R16.3", dt, es, {p: Sym(p) for p in ps}, "_encode_single_figure")
+        if rows is not None:
+            bad2, bad3, bad4, bad1 = {}, {}, {}, {}
+            n = 0
+            dims = r"(?:\w+\.)*_get_image_dimensions\(%s, (?:%s|png|jpeg|emf)\)" % (re.escape(data), re.escape(fmt))
+            for v, r in rows:
+                s = r.ret
+                if r.raised is not None:
+                    continue
+                if not isinstance(s, str):
+                    ctx.gap("R16.3", f"_encode_single_figure does not evaluate to a string ({str(s)[:60]})")
+                    break
+                n += 1
+                toks = _tokens(s)
+                f_ = v.get(fmt)
+                blips = [w_ for w_, _x in toks if w_.endswith("blip")]
+                if f_ is None:
+                    bad2.setdefault("blip ignores the format", f"the picture type {blips} is written without consulting the figure's format")
+                elif blips != [WANT_BLIP[f_]]:
+                    bad2.setdefault(f"blip for {f_}: {blips}", f"format {f_!r} is tagged {blips}, expected {WANT_BLIP[f_]!r}")
+                for word, idx, p in (("\\picw", 0, w), ("\\pich", 1, h)):
+                    vals = [x for w_, x in toks if w_ == word]
+                    okv = len(vals) == 1 and (re.fullmatch(r"‹%s\[%d\]›" % (dims, idx), vals[0]) or re.fullmatch(r"‹int\(%s \* 96\)›" % re.escape(p), vals[0]))
+                    if not okv:
+                        if len(vals) == 1 and (("_get_image_dimensions" in vals[0]) or re.search(r"\b(%s|%s)\b" % (re.escape(w), re.escape(h)), vals[0])):
+                            bad3.setdefault(f"{word} source", f"{word} is written from `{vals[0].strip('‹›')}`, expected element {idx} of the image's own dimensions (or int({p} * 96))")
+                        else:
+                            ctx.gap("R16.3", f"the source of {word} (`{vals}`) could not be re-identified")
+                for word, p in (("\\picwgoal", w), ("\\pichgoal", h)):
+                    vals = [x for w_, x in toks if w_ == word]
+                    if len(vals) != 1:
+                        ctx.gap("R16.4", f"{word} is written {len(vals)} times in the picture group")
+                        continue
+                    src, shared = _conv_of(vals[0], conv)
+                    if src != p or not shared:
+                        bad4.setdefault(f"{word} = {vals[0].strip('‹›')}", f"display size {word} is `{vals[0].strip('‹›')}`, not the shared inch->twip conversion of the configured {p}")
+                pay = re.findall(r"‹(?:\w+\.)*_binary_to_hex\(([^‹›]*)\)›", s)
+                if pay != [data]:
+                    if len(pay) == 1 or len(pay) > 1:
+                        bad1.setdefault("payload argument", f"the hex payload is computed from {pay}, expected exactly once from `{data}` as received")
+                    else:
+                        ctx.gap("R16.1", "the hex payload could not be re-identified in the picture group")
+                elif not re.search(r"\{\\pict.*‹[^‹›]*_binary_to_hex[^‹›]*›\}", s, re.S):
+                    bad1.setdefault("payload position", "the hex payload is not inside the {\\pict ...} group")
+            ctx.instance("R16.2", es.where(), f"_encode_single_figure evaluated on {n} path(s): blip per format equals {WANT_BLIP}; {len(bad2)} disagreement(s)")
+            ctx.instance("R16.3", es.where(), f"\\picw/\\pich <- the image's own (width, height) or the 96-dpi fallback: {len(bad3)} disagreement(s)")
+            ctx.instance("R16.4", es.where(), f"\\picwgoal/\\pichgoal <- shared conversion ({sorted(conv)}) of the configured width/height: {len(bad4)} disagreement(s)")
+            ctx.instance("R16.1", es.where(), f"payload = _binary_to_hex({data}) once, inside the pict group: {len(bad1)} disagreement(s)")
+            for rule, bd in (("R16.2", bad2), ("R16.3", bad3), ("R16.4", bad4), ("R16.1", bad1)):
+                for k, msg in sorted(bd.items()):
+                    ctx.violation(rule, es.short, k, es.where(), f"_encode_single_figure: {msg}")
+    # ---- dispatch of the dimension readers
     gi = pm.func("RTFFigureService._get_image_dimensions")
-    txt = unparse(gi.node)
-    ok = "format == 'png'" in txt and "_get_png_dimensions(data)" in txt and "format == 'jpeg'" in txt and "_get_jpeg_dimensions(data)" in txt
-    ctx.instance("R16.3", gi.where(), f"dimension dispatch png/jpeg: {ok}")
-    if not ok:
-        ctx.violation("R16.3", gi.short, "dispatch", gi.where(), "pixel dimensions are not read by the reader of the figure's own format")
+    ps = _params(gi)
+    if len(ps) != 2:
+        ctx.gap("R16.3", "_get_image_dimensions no longer takes (data, format)")
+    else:
+        dt = _flow(pm, atoms={ps[1]: ["png", "jpeg", "emf"]}, opaque={"_get_png_dimensions", "_get_jpeg_dimensions"}, max_atoms=8, root_cls="RTFFigureService")
+        rows = _table(ctx, "R16.3", dt, gi, {ps[0]: Sym(ps[0]), ps[1]: Sym(ps[1])}, "_get_image_dimensions")
+        if rows is not None:
+            bad = {}
+            for v, r in rows:
+                f_ = v.get(ps[1])
+                got = str(r.ret.path if isinstance(r.ret, Sym) else r.ret)
+                want = {"png": "_get_png_dimensions", "jpeg": "_get_jpeg_dimensions"}.get(f_)
+                if f_ is None:
+                    bad.setdefault("dispatch", "pixel dimensions are read without consulting the figure's format")
+                elif want and not re.fullmatch(r"(\w+\.)*%s\(%s\)" % (want, re.escape(ps[0])), got):
+                    bad.setdefault("dispatch", f"format {f_!r}: dimensions come from `{got[:60]}`, expected {want}({ps[0]})")
+                elif not want and "_dimensions(" in got:
+                    bad.setdefault("dispatch", f"format {f_!r}: dimensions come from `{got[:60]}`")
+            ctx.instance("R16.3", gi.where(), f"dimension dispatch png/jpeg by the figure's own format over {len(rows)} rows: {len(bad)} disagreement(s)")
+            for k, msg in sorted(bad.items()):
+                ctx.violation("R16.3", gi.short, k, gi.where(), "pixel dimensions are not read by the reader of the figure's own format: " + msg)
+    # ---- the readers on synthetic images
     png = pm.func("RTFFigureService._get_png_dimensions")
-    t = unparse(png.node)
-    sig = const_expr(pm, png.module, ast.parse(repr(b"\x89PNG\r\n\x1a\n"), mode="eval").body)
-    ok = "struct.unpack('>I', data[16:20])[0]" in t and "struct.unpack('>I', data[20:24])[0]" in t and "data[:8] == b'\\x89PNG\\r\\n\\x1a\\n'" in t
-    order = t.find("width = struct.unpack('>I', data[16:20])") < t.find("height = struct.unpack('>I', data[20:24])") and "return (width, height)" in t
-    ctx.instance("R16.3", png.where(), f"PNG: signature check + big-endian u32 at 16:20 (width) and 20:24 (height): {ok and order}")
-    if not (ok and order):
-        ctx.violation("R16.3", png.short, "IHDR offsets", png.where(), "PNG width/height are not read big-endian from IHDR bytes 16-20 / 20-24 after the 8-byte signature")
+    ps = _params(png)
+    cases = [("PNG 513x258", _png(0x01020304, 0x0A0B0C0D), (0x01020304, 0x0A0B0C0D)), ("PNG 640x480", _png(640, 480), (640, 480)),
+             ("not a PNG", b"\x00" * 8 + _png(640, 480)[8:], (None, None)), ("truncated PNG", _png(640, 480)[:20], (None, None))]
+    _reader(ctx, png, ps, cases, "IHDR offsets", "PNG width/height are not read big-endian from IHDR bytes 16-20 / 20-24 after the 8-byte signature")
     jp = pm.func("RTFFigureService._get_jpeg_dimensions")
-    t = unparse(jp.node)
-    ok = "struct.unpack('>H', data[i + 5:i + 7])[0]" in t and "struct.unpack('>H', data[i + 7:i + 9])[0]" in t and \
-        t.find("height = struct.unpack('>H', data[i + 5:i + 7])") != -1 and t.find("width = struct.unpack('>H', data[i + 7:i + 9])") != -1 and "return (width, height)" in t
-    skip = "i += 2 + length" in t and "struct.unpack('>H', data[i + 2:i + 4])[0]" in t
-    sof = None
-    for n in walk_no_nested(jp.node):
-        if isinstance(n, ast.Assign) and unparse(n.targets[0]) == "sof_markers":
-            sof = const_expr(pm, jp.module, n.value)
-    want = sorted(set(range(0xC0, 0xD0)) - {0xC4, 0xC8, 0xCC})
-    sof_ok = sof is not NOC and sof is not None and sorted(sof) == want
-    ctx.instance("R16.3", jp.where(), f"JPEG: SOF height at +5, width at +7: {ok}; segment skip by length: {skip}; SOF marker set correct: {sof_ok}")
-    if not (ok and skip and sof_ok):
-        ctx.violation("R16.3", jp.short, "SOF parsing", jp.where(), "JPEG height/width are not read from offsets +5/+7 of an SOF0-15 marker (excluding DHT/JPG/DAC) with length-based segment skipping")
-    # pixel dims and goal dims reach the right control words
-    t = unparse(es.node)
-    for word, var in (("\\\\picw", "pic_width"), ("\\\\pich", "pic_height"), ("\\\\picwgoal", "width_twips"), ("\\\\pichgoal", "height_twips")):
-        ok = f"f'{word}{{{var}}}'" in t
-        ctx.instance("R16.3", es.where(), f"{word} <- {var}: {ok}")
-        if not ok:
-            ctx.violation("R16.3", es.short, f"{word} source", es.where(), f"{word.replace(chr(92)*2, chr(92))} is not written from {var}")
-    env = {unparse(a.targets[0]): unparse(a.value) for a in walk_no_nested(es.node) if isinstance(a, ast.Assign) and len(a.targets) == 1}
-    for var, p in (("width_twips", "width"), ("height_twips", "height")):
-        v = env.get(var, "?")
-        ok = v.replace(" ", "") in (f"Utils._inch_to_twip({p})", f"RTFMeasurements.inch_to_twip({p})")
-        ctx.instance("R16.4", es.where(), f"{var} = {v}")
-        if not ok:
-            ctx.violation("R16.4", es.short, f"{var} = {v}", es.where(), f"display size {var} is `{v}`, not the shared inch->twip conversion of the configured {p}")
+    ps = _params(jp)
+    cases = []
+    for m in sorted(set(range(0xC0, 0xD0)) - {0xC4, 0xC8, 0xCC}):
+        cases.append((f"JPEG SOF{m - 0xC0} 0x{m:02X}", _jpeg(m, 0x0321, 0x0234), (0x0321, 0x0234)))
+    for m in (0xC4, 0xC8, 0xCC, 0xDB, 0xFE):
+        cases.append((f"JPEG with a 0x{m:02X} segment before SOF0", _jpeg(0xC0, 0x0321, 0x0234, before=(m,)), (0x0321, 0x0234)))
+    cases.append(("not a JPEG", b"\x00\x00" + _jpeg(0xC0, 10, 20)[2:], (None, None)))
+    _reader(ctx, jp, ps, cases, "SOF parsing", "JPEG height/width are not read from offsets +5/+7 of an SOF0-15 marker (excluding DHT/JPG/DAC) with length-based segment skipping")
 
+
+def _reader(ctx: Ctx, fi, ps, cases, key: str, msg: str) -> None:
+    pm = ctx.pm
+    if len(ps) != 1:
+        ctx.gap("R16.3", f"{fi.short} no longer takes one argument")
+        return
+    bad = []
+    for name, data, want in cases:
+        dt = _flow(pm, call_model=_STRUCT, max_atoms=6, root_cls="RTFFigureService")
+        rows = _table(ctx, "R16.3", dt, fi, {ps[0]: data}, fi.short)
+        if rows is None:
+            return
+        if len(rows) != 1:
+            ctx.gap("R16.3", f"{fi.short} is not decided by the image bytes alone (atoms {sorted(dt.discovered)[:3]})")
+            return
+        v, r = rows[0]
+        got = r.ret
+        if r.raised is not None:
+            got = (None, None)            # the caller (_get_image_dimensions) maps exceptions to (None, None)
+        if not (isinstance(got, (tuple, list)) and len(got) == 2 and all(x is None or isinstance(x, int) for x in got)):
+            ctx.gap("R16.3", f"{fi.short} does not evaluate to a pair of integers on {name} ({str(got)[:60]})")
+            return
+        if tuple(got) != tuple(want):
+            bad.append(f"{name}: (width, height) = {tuple(got)}, the image says {tuple(want)}")
+    ctx.instance("R16.3", fi.where(), f"{fi.short} evaluated on {len(cases)} synthetic images: {len(bad)} wrong result(s)")
+    if bad:
+        ctx.violation("R16.3", fi.short, key, fi.where(), f"{msg}; {bad[0]}" + (f" (+{len(bad) - 1} more)" if len(bad) > 1 else ""))
+
+
+# ---------------------------------------------------------------------------------------------------- R16.5
 
 def r16_5(ctx: Ctx) -> None:
     pm = ctx.pm
     gd = pm.func("RTFFigureService._get_dimension")
-    rets = [unparse(r.value) for r in walk_no_nested(gd.node) if isinstance(r, ast.Return)]
-    ok = "dimension[index] if index < len(dimension) else dimension[-1]" in rets
-    ctx.instance("R16.5", gd.where(), f"_get_dimension returns {rets}")
-    if not ok:
-        ctx.violation("R16.5", gd.short, "reuse rule " + str(rets), gd.where(), "per-figure sizes are not `d[i] if i < len(d) else d[-1]` (positional, last value reused)")
-    for short in ("UnifiedRTFEncoder._encode_figure_only", "RTFFigureService.encode_figure"):
-        fi = pm.func(short)
-        loops = [n for n in walk_no_nested(fi.node) if isinstance(n, ast.For)]
-        main = None
-        for lp in loops:
-            if any(isinstance(c, ast.Call) and dotted(c.func).endswith("_encode_single_figure") for c in ast.walk(lp)):
-                main = lp
-        if main is None:
-            ctx.violation("R16.5", short, "no per-figure loop", fi.where(), f"{short}: figures are not encoded one per loop iteration")
-            continue
-        iv = main.target.id if isinstance(main.target, ast.Name) else (main.target.elts[0].id if isinstance(main.target, ast.Tuple) else "i")
-        dims = [c for c in ast.walk(main) if isinstance(c, ast.Call) and dotted(c.func).endswith("_get_dimension")]
-        okd = len(dims) == 2 and all(len(c.args) == 2 and unparse(c.args[1]) == iv for c in dims) and \
-            sorted(unparse(c.args[0]).split(".")[-1] for c in dims) == ["fig_height", "fig_width"]
-        es = [c for c in ast.walk(main) if isinstance(c, ast.Call) and dotted(c.func).endswith("_encode_single_figure")][0]
-        args = [unparse(a) for a in es.args]
-        env = {unparse(a.targets[0]): a.value for a in ast.walk(main) if isinstance(a, ast.Assign) and len(a.targets) == 1}
-        def src_of(a):
-            v = env.get(a)
-            return unparse(v) if v is not None else a
-        w_ok = len(args) >= 4 and "fig_width" in src_of(args[2]) and "fig_height" in src_of(args[3])
-        data_ok = len(args) >= 2 and (args[0] in (f"figs[{iv}]", "figure_data")) and (args[1] in (f"formats[{iv}]", "figure_format"))
-        pages = [x for x in ast.walk(main) if isinstance(x, ast.Constant) and isinstance(x.value, str) and x.value.startswith("\\page")]
-        pg_guard = None
-        if pages:
-            for a in _anc(pages[0], main):
-                if isinstance(a, ast.If):
-                    pg_guard = unparse(a.test)
-        pg_ok = pg_guard in ("not is_last", f"{iv} < len(figure_data_list) - 1", f"{iv} < num - 1", f"{iv} != num - 1")
-        ctx.instance("R16.5", fi.where(main), f"{short}: per-figure dims by index {okd}; args {args[:4]} ok {w_ok and data_ok}; \\page under `{pg_guard}`")
-        if not okd:
-            ctx.violation("R16.5", short, "dimension lookup", fi.where(main), f"{short}: width/height of figure i are not taken by _get_dimension(fig_width/fig_height, {iv}) inside the loop")
-        if not (w_ok and data_ok):
-            ctx.violation("R16.5", short, "figure arguments " + str(args[:4]), fi.where(es), f"{short}: figure i is not encoded from its own data, format, width and height (width/height swapped or wrong index)")
-        if not pg_ok:
-            ctx.violation("R16.5", short, f"page guard {pg_guard}", fi.where(main), f"{short}: a page break must follow every figure except the last")
+    ps = _params(gd)
+    if len(ps) != 2:
+        ctx.gap("R16.5", "_get_dimension no longer takes (dimension, index)")
+    else:
+        bad = []
+        n = 0
+        models = [([3.5], "list of 1"), ([1.5, 2.5], "list of 2"), ([1.5, 2.5, 4.0], "list of 3"), ((1.5, 2.5), "tuple of 2"), (6.25, "scalar"), (7, "integer scalar")]
+        for dim, name in models:
+            for idx in range(0, 5):
+                dt = _flow(pm, max_atoms=6, root_cls="RTFFigureService")
+                rows = _table(ctx, "R16.5", dt, gd, {ps[0]: dim, ps[1]: idx}, "_get_dimension")
+                if rows is None:
+                    return
+                if len(rows) != 1:
+                    ctx.gap("R16.5", f"_get_dimension is not decided by (dimension, index) alone (atoms {sorted(dt.discovered)[:3]})")
+                    return
+                r = rows[0][1]
+                want = dim if not isinstance(dim, (list, tuple)) else (dim[idx] if idx < len(dim) else dim[-1])
+                got = r.ret if r.raised is None else f"<raises {r.raised}>"
+                n += 1
+                if isinstance(got, Sym):
+                    ctx.gap("R16.5", f"_get_dimension does not evaluate on {name}, index {idx} ({got})")
+                    return
+                if got != want:
+                    bad.append(f"{name} {dim}, figure {idx}: {got}, expected {want}")
+        ctx.instance("R16.5", gd.where(), f"_get_dimension evaluated on {n} (sizes, index) models: d[i] if i < len(d) else d[-1], scalars unchanged: {len(bad)} wrong result(s)")
+        if bad:
+            ctx.violation("R16.5", gd.short, "reuse rule " + bad[0][:80], gd.where(), "per-figure sizes are not `d[i] if i < len(d) else d[-1]` (positional, last value reused): " + "; ".join(bad[:3]))
+    # ---- the two per-figure loops on models of 1..3 figures
+    from .c06 import figure_path_table, emitted
+    t = figure_path_table(ctx)
+    fi = t["fi"]
+    if t["error"]:
+        ctx.gap("R16.5", t["error"])
+    else:
+        seen = set()
+        rows = []
+        for n, v, r in t["rows"]:
+            calls = [e for e in r.effects if e[0] == "call" and e[1] == "_encode_single_figure"]
+            sig = (n, tuple(str(e[3]) for e in calls))
+            if r.raised is None and sig not in seen:
+                seen.add(sig)
+                rows.append((n, calls, emitted(r.ret)))
+        _figure_loop(ctx, fi, rows, r"(?:\w+\.)*rtf_figure")
+    ef = pm.func("RTFFigureService.encode_figure")
+    ps = _params(ef)
+    if len(ps) != 1:
+        ctx.gap("R16.5", "encode_figure no longer takes one argument")
+    else:
+        rows = []
+        for n in (1, 2, 3):
+            figs, fmts = [Sym(f"fig{k}") for k in range(n)], [Sym(f"fmt{k}") for k in range(n)]
+            dt = _flow(pm, effect_calls={"_encode_single_figure"}, opaque={"_get_dimension"}, max_atoms=10, root_cls="RTFFigureService",
+                       call_model={"rtf_read_figure": lambda a, k, figs=figs, fmts=fmts: (list(figs), list(fmts))})
+            tb = _table(ctx, "R16.5", dt, ef, {ps[0]: Sym(ps[0], "RTFFigure")}, "encode_figure")
+            if tb is None:
+                rows = None
+                break
+            for v, r in tb:
+                calls = [e for e in r.effects if e[0] == "call" and e[1] == "_encode_single_figure"]
+                if r.raised is None and calls:
+                    rows.append((n, calls, emitted(r.ret if isinstance(r.ret, (list, tuple)) else [r.ret])))
+        if rows is not None:
+            _figure_loop(ctx, ef, rows, re.escape(ps[0]))
     ctx.floor("R16.5", 3)
 
 
-def _anc(n, stop):
-    p = getattr(n, "_parent", None)
-    while p is not None and p is not stop:
-        yield p
-        p = getattr(p, "_parent", None)
+def _figure_loop(ctx: Ctx, fi, rows, fig_obj: str) -> None:
+    """rows: (number of figures, calls of _encode_single_figure in execution order, emitted sequence)"""
+    short = fi.short
+    if not rows:
+        ctx.gap("R16.5", f"{short}: no evaluated path encodes a figure")
+        return
+    bad = {}
+    for n, calls, seq in rows:
+        if len(calls) != n:
+            bad.setdefault("figure count", f"{len(calls)} figure(s) encoded for {n} input figure(s)")
+            continue
+        for k, e in enumerate(calls):
+            a = [str(x) for x in e[3]] + [""] * 5
+            kw = {k_: str(v_) for k_, v_ in e[4].items()}
+            d_, f_, w_, h_ = kw.get("figure_data", a[0]), kw.get("figure_format", a[1]), kw.get("width", a[2]), kw.get("height", a[3])
+            if d_ != f"fig{k}" or f_ != f"fmt{k}":
+                bad.setdefault(f"figure arguments {[d_, f_]}", f"figure {k} of {n} is encoded from data `{d_}` / format `{f_}`, expected its own (fig{k}, fmt{k})")
+            for val, fld, other in ((w_, "fig_width", "fig_height"), (h_, "fig_height", "fig_width")):
+                if re.fullmatch(r"(?:\w+\.)*_get_dimension\(%s\.%s, %d\)" % (fig_obj, fld, k), val):
+                    continue
+                if re.fullmatch(r"(?:\w+\.)*_get_dimension\(%s\.%s, %d\)" % (fig_obj, other, k), val):
+                    bad.setdefault("figure arguments width/height swapped", f"figure {k}: {fld[4:]} is taken from {other}")
+                elif "_get_dimension(" in val:
+                    bad.setdefault("dimension lookup " + val[:60], f"figure {k} of {n}: {fld[4:]} is `{val}`, expected _get_dimension({fld}, {k})")
+                elif fld in val or other in val or "BroadcastValue" in val:
+                    bad.setdefault("dimension lookup", f"figure {k} of {n}: {fld[4:]} is `{val[:80]}`, not taken by _get_dimension({fld}, {k}) (positional, last value reused)")
+                else:
+                    ctx.gap("R16.5", f"{short}: the {fld[4:]} passed for figure {k} (`{val[:60]}`) could not be traced to {fld}")
+        if seq is not None:
+            pieces = [nm for nm, _l in seq if nm == "_encode_single_figure" or (nm.startswith("lit:") and nm[4:].strip() == "\\page")]
+            pieces = ["\\page" if p.startswith("lit:") else p for p in pieces]
+            want = [x for k in range(n) for x in (["_encode_single_figure"] + (["\\page"] if k < n - 1 else []))]
+            if pieces != want:
+                bad.setdefault("page guard", f"{n} figure(s): figures and page breaks are emitted as {pieces}, expected {want}")
+    ctx.instance("R16.5", fi.where(), f"{short}: on models of 1-3 figures, figure k is encoded from (data k, format k, _get_dimension(fig_width, k), _get_dimension(fig_height, k)) "
+                 f"and followed by \\page unless last: {len(bad)} kind(s) of disagreement")
+    for k, msg in sorted(bad.items()):
+        ctx.violation("R16.5", short, k, fi.where(), f"{short}: {msg}")
 
 
 def check(ctx: Ctx) -> None:
     ctx.explain(
-        "R16.1 dataflow identity: open(path,'rb').read() unmemoised -> appended in order -> passed unmodified to _binary_to_hex -> "
-        "whole-object hex(), partitioned by range(0,len,k) with slices [i:i+k] (linear forms; k even), whitespace-joined. "
-        "R16.2 suffix/MIME/blip tables agree with the documented ones. R16.3 PNG IHDR and JPEG SOF offsets and marker set "
-        "against the format specifications; control words take their documented sources. R16.4 goal sizes use the shared "
-        "inch->twip conversion and nobody else multiplies by 1440. R16.5 per-figure loop: index-wise dimensions with the "
-        "last-value reuse rule, own data/format, \\page iff not last. R16.6 placement predicates: see C06 (same rule).")
+        "R16.1 dataflow identity: open(path,'rb').read() unmemoised; rtf_read_figure evaluated on lists of 1 and 3 paths (data k / format k "
+        "from file k, in order); the picture group contains _binary_to_hex(data) once; _binary_to_hex evaluated on hex strings of 10 lengths "
+        "(lines concatenate to bytes.hex(), even lengths, whitespace separators). R16.2 decision table of the format detection over suffix x "
+        "MIME type and blip word per format. R16.3 the PNG and JPEG readers evaluated on synthetic images (every SOF marker, non-frame "
+        "segments before the frame header, wrong signatures); control words take their documented sources. R16.4 goal sizes use the shared "
+        "inch->twip conversion and nobody else multiplies by 1440. R16.5 _get_dimension on concrete (sizes, index) models; the two per-figure "
+        "loops on models of 1-3 figures: own data/format, index-wise dimensions, \\page iff not last. R16.6 placement on figure pages: see C06.")
     ctx.assume("struct.unpack and bytes.hex behave as documented")
     ctx.undecided("pixel dimensions of arbitrary (possibly malformed) image files")
     r16_1(ctx)
